@@ -60,3 +60,39 @@ def table_ops(facts, types=None):
 
 def writes(facts, types=None):
     return [x for x in table_ops(facts, types) if x[4] in WRITE_OPS and not x[5]]
+
+
+def inside_modify(f, path, depth=5, _seen=None):
+    """True if body `path` only ever runs inside the closure given to Store::modify, i.e. in the
+    shared write transaction: it is that closure, a closure nested in it, a function item passed to
+    modify, or a named function all of whose crate-local callers are themselves inside modify."""
+    from . import mir
+    _seen = _seen or set()
+    if path in _seen or depth < 0 or path not in f.bodies:
+        return False
+    _seen = _seen | {path}
+    b = f.bodies[path]
+    site = mir.closure_site(f, b)
+    if site:
+        pb, pbi, psi, ps = site
+        cl_local = ps["p"]["l"]
+        for qbi, qt in pb.calls():
+            if mir.callee_matches(qt, r"store::fs::Store::modify") and any(a[0] in ("copy", "move") and a[1]["l"] == cl_local for a in qt["a"]):
+                return True
+        return inside_modify(f, pb.path, depth - 1, _seen)
+    if b.parent:
+        return inside_modify(f, b.parent, depth - 1, _seen)
+    callers = f.callers().get(path, [])
+    if not callers:
+        # passed as a function item?
+        for ob in f.bodies.values():
+            for bi, t in ob.calls():
+                if mir.callee_matches(t, r"store::fs::Store::modify") and path in (t["f"].get("tdefs") or []):
+                    return True
+        return False
+    ok = True
+    for cb, bi, t in callers:
+        if mir.callee_matches(t, r"store::fs::Store::modify"):
+            continue
+        ok = ok and inside_modify(f, cb.path, depth - 1, _seen)
+    return ok
